@@ -785,7 +785,7 @@ class SymList:
         self.alloc = next(_alloc)
 
     def length(self):
-        return self.length_
+        return S.wrap(self.length_) if z3.is_expr(self.length_) else self.length_
 
     def at(self, i):
         return self._fn(i)
